@@ -17,6 +17,10 @@
 (*   pattern pn, pel, pb        the pattern object of the history               *)
 (*   pedit   op, a, e, i, o2    in-place edit of the pattern object             *)
 (*   matchp  pel, maps, mode    match of the (edited) pattern object            *)
+(*   open    h                  a further handle on the same graph is taken and *)
+(*                              held (Conformer view of the ensemble)           *)
+(* every query event carries h = the handle it went through, every edit via =   *)
+(* the handle ("list" = the live bond list, "" = attribute edited in place)     *)
 EXTENDS GraphQ, Json, IOUtils, TLCExt
 VARIABLES ti, l, j
 tvars == <<vars, ti, l, j>>
@@ -31,7 +35,7 @@ PatOf(e)   == [n |-> e.pn, el |-> e.pel,
                bonds |-> [i \in 1..Len(e.pb) |-> [a |-> e.pb[i][1], b |-> e.pb[i][2], o2 |-> 2]]]
 
 TGraph == /\ Ev.ev = "graph" /\ j = 0 /\ AbsLoad(GraphOf(Ev)) /\ j' = 0 /\ l' = l + 1
-TBegin == /\ Ev.ev = "bfs" /\ j = 0 /\ AbsBegin(Ev.s, Ev.d) /\ j' = 1 /\ l' = l
+TBegin == /\ Ev.ev = "bfs" /\ j = 0 /\ AbsBegin(Ev.s, Ev.d, Ev.h) /\ j' = 1 /\ l' = l
 (* yield_bfs gives no distance: the distance the property requires is supplied, so that        *)
 (* exactly-once / only-target / level order / none-missed are still decided for it              *)
 TYield == /\ Ev.ev = "bfs" /\ j >= 1 /\ j <= Len(Ev.y)
@@ -40,16 +44,17 @@ TYield == /\ Ev.ev = "bfs" /\ j >= 1 /\ j <= Len(Ev.y)
              IN AbsYield(a, k)
           /\ j' = j + 1 /\ l' = l
 TEnd   == /\ Ev.ev = "bfs" /\ j = Len(Ev.y) + 1 /\ AbsEnd /\ j' = 0 /\ l' = l + 1
-TRing  == /\ Ev.ev = "ring" /\ j = 0 /\ AbsRing(Ev.b, Ev.res) /\ j' = 0 /\ l' = l + 1
-TLocal == /\ Ev.ev = "local" /\ j = 0 /\ AbsLocal(Ev.a, Ev.nbrs, Ev.bonds, Ev.v2) /\ j' = 0 /\ l' = l + 1
+TRing  == /\ Ev.ev = "ring" /\ j = 0 /\ AbsRing(Ev.b, Ev.res, Ev.h) /\ j' = 0 /\ l' = l + 1
+TLocal == /\ Ev.ev = "local" /\ j = 0 /\ AbsLocal(Ev.a, Ev.nbrs, Ev.bonds, Ev.v2, Ev.h) /\ j' = 0 /\ l' = l + 1
 TEdit    == /\ Ev.ev = "edit" /\ j = 0 /\ AbsEdit(Ev, GraphOf(Ev)) /\ j' = 0 /\ l' = l + 1
 TPattern == /\ Ev.ev = "pattern" /\ j = 0 /\ AbsPattern(PatOf(Ev)) /\ j' = 0 /\ l' = l + 1
 TPatEdit == /\ Ev.ev = "pedit" /\ j = 0 /\ AbsPatEdit(Ev) /\ j' = 0 /\ l' = l + 1
-TMatchP  == /\ Ev.ev = "matchp" /\ j = 0 /\ AbsMatchP(Ev.pel, Ev.maps, Ev.mode) /\ j' = 0 /\ l' = l + 1
-TMatch == /\ Ev.ev = "match" /\ j = 0 /\ AbsMatch(PatOf(Ev), Ev.maps, Ev.mode, Ev.must) /\ j' = 0 /\ l' = l + 1
+TMatchP  == /\ Ev.ev = "matchp" /\ j = 0 /\ AbsMatchP(Ev.pel, Ev.maps, Ev.mode, Ev.h) /\ j' = 0 /\ l' = l + 1
+TOpen    == /\ Ev.ev = "open" /\ j = 0 /\ AbsOpen(Ev.h) /\ j' = 0 /\ l' = l + 1
+TMatch == /\ Ev.ev = "match" /\ j = 0 /\ AbsMatch(PatOf(Ev), Ev.maps, Ev.mode, Ev.must, Ev.h) /\ j' = 0 /\ l' = l + 1
 
 Step == /\ ti <= NT /\ l <= Len(Tr)
-        /\ (TGraph \/ TBegin \/ TYield \/ TEnd \/ TRing \/ TLocal \/ TMatch \/ TEdit \/ TPattern \/ TPatEdit \/ TMatchP)
+        /\ (TGraph \/ TBegin \/ TYield \/ TEnd \/ TRing \/ TLocal \/ TMatch \/ TEdit \/ TPattern \/ TPatEdit \/ TMatchP \/ TOpen)
         /\ ti' = ti
 
 (* which clause the unexplained event breaks (diagnostic only) *)
@@ -58,7 +63,7 @@ Why == IF Ev.ev # "bfs" THEN {Ev.ev}
        ELSE IF j > Len(Ev.y) THEN {"NoneMissed"}
        ELSE LET a == Ev.y[j][1] IN
             CheckYield(tgt, seen, lastk, a, IF Ev.api = "bfs" /\ a \in DOMAIN tgt THEN tgt[a] ELSE Ev.y[j][2])
-Reset == /\ g' = NoGraph /\ adj' = AdjOf(NoGraph) /\ pat' = NoGraph /\ memo' = NoGraph /\ edits' = 0 /\ BackToIdle /\ last' = [act |-> "init"]
+Reset == /\ g' = NoGraph /\ adj' = AdjOf(NoGraph) /\ pat' = NoGraph /\ open' = {"obj"} /\ memo' = NoMemo /\ edits' = 0 /\ BackToIdle /\ last' = [act |-> "init"]
 NextTrace == ti' = ti + 1 /\ l' = 1 /\ j' = 0 /\ Reset
 Finish == /\ ti <= NT /\ l = Len(Tr) + 1
           /\ PrintT(<<"VERDICT", Traces[ti].tid, "ACCEPT">>)
@@ -72,6 +77,7 @@ TraceNext == Step \/ Finish \/ Stuck
 TraceSpec == TraceInit /\ [][TraceNext]_tvars
 NoPat   == {}
 NoKinds == {}
+NoHandles == {}
 NoElems == {}
 DevNone == {}
 =============================================================================
